@@ -39,10 +39,27 @@ package helpers
 //@ ensures.prefix[C14] result == isMeta(data)
 //@ modifies nothing
 
-// Size strings: float parsing is outside the generator's reach; the value is an uninterpreted
-// function of the input here and is checked by a bounded run of the real function (C17, labelled bounded).
+// Size strings. Strings and floats are uninterpreted here: the contract fixes which substring is parsed,
+// which unit selects which multiplier, that the product is truncated by Go's float->int conversion and
+// nothing else (no rounding call), for all inputs. That strconv.ParseFloat, float multiplication and
+// the conversion compute the mathematical value is left to a bounded run of the real function (C17, bounded).
+//@ pure sizeNumStr(str string) int = replaceall(trimspace(substr(str, 0, len(str) - 2)), ",", ".")
+//@ pure sizeUnit(str string) int = toupper(substr(str, len(str) - 2, len(str)))
+//@ pure sizeBad(str string) bool = len(str) < 2 || !parsefloatok(sizeNumStr(str)) || (sizeUnit(str) != "B" && sizeUnit(str) != "KB" && sizeUnit(str) != "MB" && sizeUnit(str) != "GB")
+//@ pure sizeBytes(str string) int = ite(sizeUnit(str) == "B", ftoint(parsefloat(sizeNumStr(str))), ite(sizeUnit(str) == "KB", ftoint(fmul(parsefloat(sizeNumStr(str)), flit(1024))), ite(sizeUnit(str) == "MB", ftoint(fmul(parsefloat(sizeNumStr(str)), flit(1048576))), ftoint(fmul(parsefloat(sizeNumStr(str)), flit(1073741824))))))
+//@ pure resolveUnion(input any) int = ite(typeis(input, int), as(input, int), ite(typeis(input, uint), ite(as(input, uint) > 9223372036854775807, as(input, uint) - 18446744073709551616, as(input, uint)), ite(typeis(input, string), ite(parseintok(as(input, string), 10, 64), parseint(as(input, string), 10, 64), sizeBytes(as(input, string))), 0)))
+
+//@ func convertSizeUnitToByte
+//@ props C17
+//@ ensures.reject[C17] (result1 != nil) == sizeBad(str)
+//@ ensures.rejected_zero[C17] result1 != nil ==> result0 == 0
+//@ ensures.bytes[C17] result1 == nil ==> result0 == sizeBytes(str)
+//@ nopanic
+//@ modifies nothing
+
 //@ func ResolveUnionIntOrStringValue
 //@ props C17
-//@ trusted
-//@ ensures result == uninterp("resolve.union", input)
+//@ domain logger.Log != nil
+//@ ensures.value[C17] result == resolveUnion(input)
+//@ panics.bad_size[C17] typeis(input, string) && !parseintok(as(input, string), 10, 64) && sizeBad(as(input, string))
 //@ modifies nothing
